@@ -268,7 +268,11 @@ def step (st : St) (op impl : List String) : St × String × String :=
     let restart := match o with
       | .start .. => st.fed.started
       | _ => false
+    let gone := st.fed.sessionClosed && (match o with
+      | .probe => false
+      | _ => true)
     if !started || restart then (st, "bad-op", v)
+    else if gone then (st, "session-gone", v)
     else
       let c := SigModel.ShapesFederation.step generatedFacts st.fed o
       ({ fed := c.st }, render o st.fed c, v)
